@@ -14,7 +14,7 @@ import (
 	"verifharness/ev"
 )
 
-const ruleC14Router = "end-to-end through the public API: one router with MinDelay from {0,1ms,10ms} and MaxJitter from {0,2ms}, 2 hosts, 1..3 sending sockets on one host and one receiving socket on the other; each sender writes 1..25 tagged datagrams with rapid-drawn spacing (0, MinDelay/2, MinDelay, 2*MinDelay); oracle: ReadFrom returns each datagram no sooner than MinDelay after its WriteTo was started (monotonic clock), exactly once, unmodified, per-sender order preserved, all within MinDelay + 3 s; non-trivial = MinDelay > 0 and >= 10 datagrams; distinct by hash of the plan"
+const ruleC14Router = "end-to-end through the public API: one router with MinDelay from {0,1ms,10ms} and MaxJitter from {0,2ms}, 2 hosts, 1..3 sending sockets on one host and one receiving socket on the other; each sender writes 1..25 tagged datagrams with rapid-drawn spacing (0, MinDelay/2, MinDelay, 2*MinDelay); in half of the cases a pass-through chunk filter makes the forwarding loop slow (0.6..1.6 x MinDelay on every 2nd or 3rd datagram); oracle: ReadFrom returns each datagram no sooner than MinDelay after its WriteTo was started (monotonic clock), exactly once, unmodified, per-sender order preserved, all within MinDelay + 3 s; non-trivial = MinDelay > 0 and >= 10 datagrams; distinct by hash of the plan"
 
 func TestC14RouterDelay(t *testing.T) {
 	r := ev.New("C14", "router-delay-e2e", ruleC14Router)
@@ -30,6 +30,11 @@ func TestC14RouterDelay(t *testing.T) {
 			for i := 0; i < n; i++ {
 				plans[s] = append(plans[s], step{rapid.IntRange(8, 1200).Draw(t, "size"), rapid.IntRange(0, 5).Draw(t, "gap")})
 			}
+			if s == 0 && rapid.Bool().Draw(t, "tail") {
+				// a tail whose datagrams become due while the loop is busy with their predecessor
+				plans[s] = append(plans[s], step{100, 6}, step{100, 7}, step{100, 0})
+				n += 3
+			}
 			total += n
 			c.Op("sender %d: %v", s, plans[s])
 		}
@@ -44,6 +49,26 @@ func TestC14RouterDelay(t *testing.T) {
 		wan, err := vnet.NewRouter(&vnet.RouterConfig{CIDR: "10.0.0.0/24", MinDelay: minDelay, MaxJitter: jitter, LoggerFactory: lf})
 		if err != nil {
 			t.Fatal(err)
+		}
+		// a slow consumer inside the forwarding loop: a pass-through chunk filter that takes
+		// 0.6..1.6 x MinDelay on every k-th datagram, so that later datagrams become due while
+		// the loop is busy
+		slowEvery := rapid.SampledFrom([]int{0, 0, 1, 1, 2, 3}).Draw(t, "slowEvery")
+		slow := time.Duration(float64(minDelay) * float64(rapid.IntRange(6, 16).Draw(t, "slowx")) / 10)
+		if minDelay == 0 {
+			slow = time.Duration(rapid.IntRange(0, 300).Draw(t, "slowus")) * time.Microsecond
+		}
+		if slowEvery > 0 {
+			c.Label("slow-consumer")
+			c.Set("slow", fmt.Sprintf("every %d: %v", slowEvery, slow))
+			nth := 0
+			wan.AddChunkFilter(func(vnet.Chunk) bool {
+				nth++
+				if nth%slowEvery == 0 {
+					time.Sleep(slow)
+				}
+				return true
+			})
 		}
 		a, _ := vnet.NewNet(&vnet.NetConfig{StaticIPs: []string{"10.0.0.2"}})
 		b, _ := vnet.NewNet(&vnet.NetConfig{StaticIPs: []string{"10.0.0.3"}})
@@ -90,6 +115,10 @@ func TestC14RouterDelay(t *testing.T) {
 						time.Sleep(minDelay)
 					case 5:
 						time.Sleep(2 * minDelay)
+					case 6:
+						time.Sleep(minDelay / 4)
+					case 7:
+						time.Sleep(minDelay * 7 / 4)
 					}
 				}
 			}(s)
@@ -102,7 +131,7 @@ func TestC14RouterDelay(t *testing.T) {
 		}
 		var got []rec
 		buf := make([]byte, 1500)
-		_ = rcv.SetReadDeadline(time.Now().Add(minDelay + 3*time.Second + time.Duration(total)*(jitter+minDelay)))
+		_ = rcv.SetReadDeadline(time.Now().Add(minDelay + 3*time.Second + time.Duration(total)*(jitter+minDelay+slow)))
 		for len(got) < total {
 			n, from, err := rcv.ReadFrom(buf)
 			at := time.Now()
